@@ -64,11 +64,12 @@ Fixpoint rset (k : nat) (v : Z) (r : reslist) : reslist :=
 
 (* pointwise combination, the shorter list padded with "absent" *)
 Fixpoint rzip {B} (f : option Z -> option Z -> B) (a b : reslist) : list B :=
-  match a, b with
-  | [], [] => []
-  | x :: a', [] => f x None :: rzip f a' []
-  | [], y :: b' => f None y :: rzip f [] b'
-  | x :: a', y :: b' => f x y :: rzip f a' b'
+  match a with
+  | [] => map (f None) b
+  | x :: a' => match b with
+               | [] => f x None :: rzip f a' []
+               | y :: b' => f x y :: rzip f a' b'
+               end
   end.
 
 Definition rall2 (f : option Z -> option Z -> bool) (a b : reslist) : bool :=
